@@ -2,3 +2,5 @@ import G9Proofs.Props.C01
 import G9Proofs.Props.C02
 import G9Proofs.Props.C20
 import G9Proofs.Props.C04
+import G9Proofs.Props.C05
+import G9Proofs.Props.C12
